@@ -411,7 +411,9 @@ int main(int argc, char **argv) {
     std::vector<Reporter::Artifact> arts = {{"input.bin", mutated}, {"case.txt", where}};
     const std::string kindname = base->kind == kGeometry ? "geometry" : base->kind == kKeyframes ? "keyframes" : base->kind == kMetadata ? "metadata" : "symbols";
     const int64_t B = kC0 + kKin * static_cast<int64_t>(mutated.size()) + kKel * oc.declared_sum;
-    const bool justified = oc.refused_request <= 64 * oc.declared_max + kC0;
+    // An over-cap request is the tolerated exit iff it is explained by the declared element counts (same bound as C18:
+    // E counts points x components per attribute, so arrays of up to 255 components x 8 bytes per point are covered).
+    const bool justified = oc.refused_request <= B;
     // ---- verdicts -----------------------------------------------------------------------------------
     if (c02) {
       if (oc.input_changed) { rep.violation("input-bytes-modified/" + kindname, where, arts); return; }
